@@ -269,3 +269,7 @@ def run(rep, tier):
         rep.call(formulas.coefficients_formula, rep, prog, "C01.formula")
         rep.call(formulas.quantise, rep, prog, "C01.quantise")
         rep.call(dispatch_rules.precision_reach, rep, prog, "C01.precision-reach")
+        # "rounding is to nearest (single-pass results are within half a unit)": the rounding terms
+        # that reach every final shift total exactly half an output unit
+        from ..engines import roundbudget
+        rep.call(roundbudget.budget, rep, prog, "C01.round-budget", {"x86": 110, "arm": 60, "wasm": 55}.get(cfg, 40))
